@@ -6,7 +6,10 @@ import (
 	"sort"
 	"strings"
 
+	"golang.org/x/tools/go/packages"
+
 	"seatalint/internal/core"
+	"seatalint/internal/flow"
 )
 
 func init() { register("C18", checkC18) }
@@ -14,7 +17,7 @@ func init() { register("C18", checkC18) }
 const pParserAST = "github.com/arana-db/parser/ast"
 
 func checkC18(r *core.Run) {
-	r.Explain = "The property itself (recorded image == rows the statement changed) ranges over database contents and is NOT decidable statically. Three structural necessary conditions are decided: (C18.derive) the before-image SELECT of update/delete (and their multi-statement variants) takes From/Where/OrderBy/Limit from the business statement's own AST nodes and locks FOR UPDATE, and the argument selection traverses exactly the expression-bearing clauses that were copied; (C18.markers) the parameter-marker collector is complete: it walks the expression with the parser's visitor, or its type switch covers every expression node type of the parser that has expression children and recurses into all of them; (C18.scan) the scan-type table and the JDBC code table agree for every MySQL data type (no integer scan type for a binary/text code and the like); (C18.fresh) util.ScanRows.Scan leaves a destination untouched when the source column is NULL, so every call to it inside a row loop gets destinations created inside that loop iteration (a destination slice built once per result set makes a NULL column of a later row keep the previous row's value)."
+	r.Explain = "The property itself (recorded image == rows the statement changed) ranges over database contents and is NOT decidable statically. Three structural necessary conditions are decided: (C18.derive) the before-image SELECT of update/delete (and their multi-statement variants) takes From/Where/OrderBy/Limit from the business statement's own AST nodes and locks FOR UPDATE, and the argument selection traverses exactly the expression-bearing clauses that were copied; (C18.markers) the parameter-marker collector is complete: it walks the expression with the parser's visitor, or its type switch covers every expression node type of the parser that has expression children and recurses into all of them; (C18.scan) the scan-type table and the JDBC code table agree for every MySQL data type (no integer scan type for a binary/text code and the like); (C18.recorded) an executor adds a before/after image to the transaction's round images only on the nil-error edge of the business statement (the callback) and only after both images were built without error — an image recorded for a statement the database refused describes rows that were not changed; (C18.fresh) util.ScanRows.Scan leaves a destination untouched when the source column is NULL, so every call to it inside a row loop gets destinations created inside that loop iteration (a destination slice built once per result set makes a NULL column of a later row keep the previous row's value)."
 	r.Trusted = []string{"go/types", "github.com/arana-db/parser: Accept visits every child node", "MySQL information_schema DATA_TYPE spellings (reference list)"}
 	w := r.W
 	_, live := liveATExecutors(w)
@@ -207,6 +210,8 @@ func checkC18(r *core.Run) {
 	r.Floor("C18.scan", 28)
 	c18Fresh(r)
 	r.Floor("C18.fresh", 2)
+	c18Recorded(r, live)
+	r.Floor("C18.recorded", 10)
 }
 
 // c18Markers: visitor-based, or a total type switch.
@@ -442,4 +447,71 @@ func c18Fresh(r *core.Run) {
 			return true
 		})
 	}
+}
+
+// c18Recorded: images reach TxCtx.RoundImages only after the business statement and both image queries succeeded.
+func c18Recorded(r *core.Run, live []*types.Named) {
+	w := r.W
+	isRecord := func(f *types.Func) bool {
+		if f == nil {
+			return false
+		}
+		rn := core.RecvNamed(f)
+		return rn != nil && rn.Obj().Name() == "RoundRecordImage" && strings.HasPrefix(f.Name(), "Append")
+	}
+	for _, t := range live {
+		for _, f := range w.SortedFuncs() {
+			if core.RecvNamed(f.Obj) != t || w.IsTestFile(f.Decl.Pos()) {
+				continue
+			}
+			has := false
+			for _, cs := range w.Calls(f) {
+				if isRecord(cs.Static) {
+					has = true
+				}
+			}
+			if !has {
+				continue
+			}
+			r.Fn(f)
+			info := f.Pkg.TypesInfo
+			var cbs []types.Object
+			for _, p := range paramObjs(f) {
+				if _, ok := p.Type().Underlying().(*types.Signature); ok {
+					cbs = append(cbs, p)
+				}
+			}
+			sp := &flow.Spec{W: w, Depth: 0, Classify: func(pkg *packages.Package, call *ast.CallExpr, callee *types.Func) []flow.Tag {
+				if isRecord(callee) {
+					return []flow.Tag{"record"}
+				}
+				if id, ok := ast.Unparen(call.Fun).(*ast.Ident); ok {
+					for _, cb := range cbs {
+						if info.Uses[id] == cb {
+							return []flow.Tag{"business"}
+						}
+					}
+				}
+				if callee != nil && core.RecvNamed(callee) == t && hasErr(callee) && strings.Contains(strings.ToLower(callee.Name()), "image") {
+					return []flow.Tag{"image"}
+				}
+				return nil
+			}}
+			res := sp.Analyze(f)
+			for _, cp := range res.Calls {
+				if !inSet("record", cp.Tags...) {
+					continue
+				}
+				r.Sites++
+				okc := cp.Before.Has("ok:business") && !cp.Before.Maybe("fail:image") && !cp.InLoop || cp.Before.Has("ok:business") && !cp.Before.Maybe("fail:image")
+				r.Check(okc, "C18.recorded", core.ShortKey(f.Obj)+" -> "+cp.Callee.Name()+" after the statement succeeded", w.Pos(cp.Call.Pos()), "recorded on the nil-error edge of the business statement",
+					"an image is added to the round images although the business statement has not (yet) succeeded on this path: if the database refuses the statement the image stays in the transaction and the undo log describes rows that were never changed")
+			}
+		}
+	}
+}
+
+func hasErr(f *types.Func) bool {
+	_, ok := core.HasErrorResult(f.Type().(*types.Signature))
+	return ok
 }
